@@ -34,7 +34,8 @@ func draw(t *rapid.T) *pbt.Case {
 	str := gen.Regular()
 	// (umultiis: a multi-cause type with its own Is method; nothing is
 	// claimed about Is after transfer here)
-	g := gen.Default(str).With("umultiis")
+	g := gen.Default(str).With("umultiis", "umulticauser")
+	g.XRate = 150 // (every layer is a reference here: wide and deep trees cost their square)
 	g.WMulti = 2
 	// Construct the feature: a multi-cause node whose branches are
 	// generated chains / trees, below 0-3 wrappers.
@@ -94,10 +95,13 @@ func check(c *pbt.Case, r *pbt.R) {
 		nested++
 		M := v.Obj
 		// Unwrap treats a multi-cause error as a leaf.
-		if errors.UnwrapOnce(M) != nil || errors.Unwrap(M) != nil || goErr.Unwrap(M) != nil {
+		// (a type that also has a Cause() method is followed through it, as
+		// the library documents; everything else below applies to it too)
+		_, hasCause := M.(interface{ Cause() error })
+		if !hasCause && (errors.UnwrapOnce(M) != nil || errors.Unwrap(M) != nil || goErr.Unwrap(M) != nil) {
 			r.Failf("Unwrap of a multi-cause error is not nil", "%T in %s", M, c.Spec)
 		}
-		if !ref.SameVal(errors.UnwrapAll(M), M) {
+		if !hasCause && !ref.SameVal(errors.UnwrapAll(M), M) {
 			r.Failf("UnwrapAll does not stop at a multi-cause error", "%T in %s", M, c.Spec)
 		}
 		branches := errbase.UnwrapMulti(M)
